@@ -7,7 +7,10 @@
 class PolarR6_SonnendruckerGyro_CzarnyGeometry : public SourceTerm
 {
 public:
-    PolarR6_SonnendruckerGyro_CzarnyGeometry() = default;
+    PolarR6_SonnendruckerGyro_CzarnyGeometry()
+    {
+        initializeGeometry();
+    }
     explicit PolarR6_SonnendruckerGyro_CzarnyGeometry(const double& Rmax, const double& inverse_aspect_ratio_epsilon,
                                                       const double& ellipticity_e);
     virtual ~PolarR6_SonnendruckerGyro_CzarnyGeometry() = default;
